@@ -6,7 +6,8 @@
    least that many routes: then (kfd_feasible_iff, C02/C03) the k-models skipped below it are infeasible and the option
    changes neither solvability nor the optimum.  The width bound is C03_decomposition_has_at_least_antichain_many_paths;
    here: the log2 bound and the min-generating-set bound (paths and walks, with the cut behind the partition constraints).
-   The subgraph-scanning bound has no theorem yet: it is covered by the differential stream of harness/engines/c05.py. *)
+   The subgraph-scanning bound: SubgraphBound.v (C05_subgraph_scanning_lower_bound_is_sound below); the executable
+   window_subgraph is tied to graphutils.get_subgraph_between_topological_nodes by the E3 stream of harness/e3window.py. *)
 From Coq Require Import List NArith ZArith QArith Bool Arith Lia Permutation.
 Import ListNotations.
 From FP Require Import Lin Blocks BlocksProofs PathEnc PathEncProofs PathEncComplete PathEncGiven EulerProofs1 WalkTree
@@ -159,3 +160,51 @@ Example C05_lower_bounds_nonvacuous :
 Proof.
   split; [exact lb_decomposition|]. split; [exact lb_wf|]. split; [exact lb_cut|]. split; [exact lb_gen_set_bound|exact lb_log2].
 Qed.
+
+(* use_subgraph_scanning_lowerbound (MinFlowDecomp): H = window_subgraph topo left right E is what
+   graphutils.get_subgraph_between_topological_nodes returns (window nodes topo[left:right], every edge with an endpoint in the
+   window, the outside endpoints as nodes; tied by E3), solved with the same flow values and the ignore list restricted to
+   edges inside H.  Every decomposition of G into k source-to-sink paths restricts to a decomposition of H into kH <= k
+   source-to-sink paths OF H (sources / sinks of H = nodes without in- / out-edges in H; paths without a window node are
+   dropped, a path that only uses ignored edges of H keeps its route with weight 0), hence the optimum of H is a lower bound
+   for G and starting the search there cuts off nothing. *)
+From FP Require Import EndToEnd1 EndToEnd2 SubgraphBound.
+
+Theorem C05_decomposition_restricts_to_the_window_subgraph :
+  forall (V : list node) (E : list PathEnc.edge) (s t : node) (f : PathEnc.edge -> Z) (ign : list PathEnc.edge)
+         (topo : list node) (left right k : nat) (P : N -> list node) (w : N -> Q),
+  dag_with_order V E s t topo ->
+  decomposition (sg_inst V E s t f ign k) P w ->
+  let VH := fst (window_subgraph topo left right E) in let EH := snd (window_subgraph topo left right E) in
+  exists (kH : nat) (PH : N -> list node) (wH : N -> Q),
+    (kH <= k)%nat /\ decomposition (sg_inst VH EH s t f (restrict_ignore VH ign) kH) PH wH.
+Proof. exact subgraph_restriction. Qed.
+Print Assumptions C05_decomposition_restricts_to_the_window_subgraph.
+
+Theorem C05_subgraph_scanning_lower_bound_is_sound :
+  forall (V : list node) (E : list PathEnc.edge) (s t : node) (f : PathEnc.edge -> Z) (ign : list PathEnc.edge)
+         (topo : list node) (left right k lbH : nat) (P : N -> list node) (w : N -> Q),
+  dag_with_order V E s t topo ->
+  let VH := fst (window_subgraph topo left right E) in let EH := snd (window_subgraph topo left right E) in
+  (forall j, (j < lbH)%nat -> ~ exists PH wH, decomposition (sg_inst VH EH s t f (restrict_ignore VH ign) j) PH wH) ->
+  decomposition (sg_inst V E s t f ign k) P w -> (lbH <= k)%nat.
+Proof. exact subgraph_scanning_bound. Qed.
+Print Assumptions C05_subgraph_scanning_lower_bound_is_sound.
+
+(* the instance without an ignore list is EndToEnd2.e2e_inst, the one the C03 minimum theorem is stated for *)
+Theorem C05_subgraph_scanning_lower_bound_is_sound_e2e :
+  forall (V : list node) (E : list PathEnc.edge) (s t : node) (f : PathEnc.edge -> Z)
+         (topo : list node) (left right k lbH : nat) (P : N -> list node) (w : N -> Q),
+  dag_with_order V E s t topo ->
+  let VH := fst (window_subgraph topo left right E) in let EH := snd (window_subgraph topo left right E) in
+  (forall j, (j < lbH)%nat -> ~ exists PH wH, decomposition (e2e_inst VH EH s t f j) PH wH) ->
+  decomposition (e2e_inst V E s t f k) P w -> (lbH <= k)%nat.
+Proof. exact subgraph_scanning_bound_e2e. Qed.
+Print Assumptions C05_subgraph_scanning_lower_bound_is_sound_e2e.
+
+(* non-vacuity: 0 -> 1 -> 2 -> 3 and 0 -> 2 (flow 2 on 2 -> 3, 1 elsewhere), two paths of weight 1, window {1}: the
+   premises hold, H = ({1, 0, 2}, {0 -> 1, 1 -> 2}) and exactly one of the two paths survives the restriction *)
+Example C05_subgraph_scanning_nonvacuous :
+  dag_with_order sbV sbE 10%N 11%N sbV /\ decomposition (sg_inst sbV sbE 10%N 11%N sbf [] 2) sbP sbw /\
+  window_subgraph sbV 1 2 sbE = ([1; 0; 2]%N, [(0, 1); (1, 2)]%N) /\ k' sbV 1 2 2 sbP = 1%nat.
+Proof. split; [exact sb_dag|]. split; [exact sb_decomposition|exact sb_window]. Qed.
